@@ -25,6 +25,8 @@ OUTSIDE = ["model_dump_json / model_validate_json (pydantic_core serializer)", "
 ASSUMPTIONS = ["pydantic BaseModel stub: before-validators, per-field coercion, Prefix._validate with info.context, frozen models reject assignment",
                "hash of a tuple is a function of the hashes of its items (uninterpreted functions)", "csv stub: a file is a list of rows of cells"]
 
+PRETTY_SAMPLES = True   # path witnesses replayed through real files should be printable
+
 
 def jobs(tier):
     out = [dict(name=n, fn=n, params=p, budget_s=600, group=n, expect_outcomes=e) for n, p, e in [
@@ -174,7 +176,7 @@ def build(job):
         if not eng.mods.symbolic:
             # real files: cells that the csv dialect cannot carry unchanged are outside the claim
             if any(ch in v for v in vs for ch in '\r\n\t"\x00') or any(not v for v in vs):
-                return "ok"
+                return "<precondition-not-met: cells the csv dialect cannot carry unchanged>"
         t = tr.Triple(subject=api.Reference(prefix=vs[0], identifier=vs[1]), predicate=api.Reference(prefix=vs[2], identifier=vs[3]),
                       object=api.Reference(prefix=vs[4], identifier=vs[5]))
         if eng.mods.symbolic:
